@@ -202,7 +202,9 @@ impl Gatekeeper {
     ) -> Result<u32, NotEnoughSlots> {
         // For updates, the difference between the existing appointment size and the update is computed.
         let mut registered_users = self.registered_users.lock().unwrap();
-        let user_info = registered_users.get_mut(&user_id).unwrap();
+        // The user may be gone by now: authentication happens in a critical section of its own, and the subscription
+        // can be outdated (and the user removed) by a block connected in between. There are no slots to take from then.
+        let user_info = registered_users.get_mut(&user_id).ok_or(NotEnoughSlots)?;
         let used_blob_size = self
             .dbm
             .lock()
